@@ -6,7 +6,7 @@ set -e
 dom=$1
 cd "$(dirname "$0")/.."
 make -s coqmk
-( cd coq && timeout 7200 make -f Makefile.coq -j8 --no-print-directory extract/Extract_$dom.vo > /dev/null )
+( cd coq && timeout 3000 make -f Makefile.coq -j8 --no-print-directory COQC='timeout 900 coqc' extract/Extract_$dom.vo > /dev/null )
 b=ocaml/_b_$dom
 mkdir -p $b
 if [ -f coq/model_$dom.ml ]; then
@@ -15,7 +15,7 @@ fi
 if [ ! -f $b/model.ml ]; then
   # the .vo was up to date but the extracted file is gone: force one extraction
   rm -f coq/extract/Extract_$dom.vo
-  ( cd coq && timeout 7200 make -f Makefile.coq -j8 --no-print-directory extract/Extract_$dom.vo > /dev/null )
+  ( cd coq && timeout 3000 make -f Makefile.coq -j8 --no-print-directory COQC='timeout 900 coqc' extract/Extract_$dom.vo > /dev/null )
   mv coq/model_$dom.ml $b/model.ml; mv coq/model_$dom.mli $b/model.mli
 fi
 need=0
